@@ -47,6 +47,13 @@ func (e *Engine) verifyUnit(fn *ssa.Function, ct *FuncContract, alias []string, 
 	for _, p := range fn.Params {
 		args = append(args, x.freshTyped(st, "p_"+p.Name(), p.Type()))
 	}
+	// symbolic inputs whose model values are reported with a counterexample
+	for i, p := range fn.Params {
+		if args[i].Tup != nil || p.Name() == "" {
+			continue
+		}
+		x.recordInputs(st, p.Name(), args[i].T, p.Type(), 2)
+	}
 	for _, fv := range fn.FreeVars {
 		v := x.freshTyped(st, "fv_"+fv.Name(), fv.Type())
 		vc.assume("true", fmt.Sprintf("(> %s 0)", v.T))
@@ -183,6 +190,36 @@ func (e *Engine) verifyUnit(fn *ssa.Function, ct *FuncContract, alias []string, 
 		}
 	}
 	return u
+}
+
+// recordInputs lists scalar components of a parameter (and of the struct it
+// points to) so that their model values can be extracted.
+func (x *Exec) recordInputs(st *State, label, term string, t types.Type, depth int) {
+	vc := x.vc
+	if len(vc.inputs) > 60 {
+		return
+	}
+	switch u := t.Underlying().(type) {
+	case *types.Basic:
+		vc.inputs = append(vc.inputs, [2]string{label, term})
+	case *types.Interface, *types.Chan, *types.Map, *types.Signature:
+		vc.inputs = append(vc.inputs, [2]string{label, term})
+	case *types.Slice:
+		vc.inputs = append(vc.inputs, [2]string{label + ".len", fmt.Sprintf("(s-len %s)", term)})
+		vc.inputs = append(vc.inputs, [2]string{label + ".cap", fmt.Sprintf("(s-cap %s)", term)})
+	case *types.Pointer:
+		vc.inputs = append(vc.inputs, [2]string{label, term})
+		if depth > 0 {
+			if _, isStruct := u.Elem().Underlying().(*types.Struct); isStruct {
+				k := vc.heapKey("H", u.Elem())
+				x.recordInputs(st, "*"+label, fmt.Sprintf("(select %s %s)", vc.heapGet(st, k), term), u.Elem(), depth-1)
+			}
+		}
+	case *types.Struct:
+		for i := 0; i < u.NumFields(); i++ {
+			x.recordInputs(st, label+"."+u.Field(i).Name(), vc.fieldSel(t, i, term), u.Field(i).Type(), depth-1)
+		}
+	}
 }
 
 type frameAllow struct {
